@@ -7,7 +7,7 @@ import (
 	"verif/mc/gen/mapk"
 )
 
-func init() { props["C15"] = c15 }
+func init() { props["C15"] = c15; programSets["C15"] = func(t bool) []diffrun.Program { return mapk.Programs(t, "") } }
 
 func c15(tier string) int {
 	start := time.Now()
